@@ -145,7 +145,10 @@ func genExt4History(r *core.Rng, tier string, idx int, wide bool) *core.Trace {
 		}
 	}
 	for i := 0; i < nops; i++ {
-		switch r.PickW(10, 12, 24, 8, 8, 9, 6, 6, 6, 5, 3, 3, 2, 1) {
+		switch r.PickW(10, 12, 24, 8, 8, 9, 6, 6, 6, 5, 3, 3, 2, 1, 4) {
+		case 14:
+			// truncating open followed by a write of the new content (as CopyFileSystem does over an existing file)
+			t.Ops = append(t.Ops, core.Op{K: "trunc", P: pickFile(), B: sizes(), C: int64(r.U64() >> 2)})
 		case 13:
 			// several hundred interleaved one-block appends to two files: more extents than four leaf blocks hold
 			// (84 per 1 KiB leaf, 340 per 4 KiB leaf)
@@ -595,6 +598,42 @@ func (x *ext4Run) step(o core.Op) *core.Violation {
 		}
 		x.locus = lib + ".(*File).Write"
 		return x.writeFile(o.P, off, data, o.K == "append")
+	case "trunc":
+		n := m.get(o.P)
+		if n == nil || n.dir || n.tainted || (x.attr[m.key(o.P)] != nil && x.attr[m.key(o.P)].link != "") {
+			return nil
+		}
+		if o.B < 0 || o.B > 4<<20 {
+			o.B = 4096
+		}
+		x.trig, x.locus = "trunc", lib+".(*FileSystem).OpenFile"
+		data := core.PatternBytes(uint64(o.C)+uint64(x.opIdx), o.B)
+		var f filesystem.File
+		var err error
+		var wn int
+		if v := x.call(func() {
+			f, err = x.fs.OpenFile(o.P, os.O_RDWR|os.O_TRUNC)
+			if err == nil && len(data) > 0 {
+				wn, err = f.Write(data)
+			}
+			if f != nil {
+				f.Close()
+			}
+		}); v != nil {
+			return v
+		}
+		if err != nil {
+			x.lastErr = true
+			x.res.Probe("op-refused")
+			x.resync(o.P)
+			return nil
+		}
+		if wn != len(data) {
+			return x.viol(x.pfx()+"write-count", fmt.Sprintf("Write after a truncating open returned n=%d err=nil for %d bytes", wn, len(data)))
+		}
+		n.data = append([]byte(nil), data...)
+		x.mutated = true
+		x.res.Probe("truncating-open")
 	case "fillup":
 		if x.size > 48<<20 {
 			return nil // filling is for small volumes
